@@ -132,6 +132,6 @@ static Outcome encode_to_sink(const std::string& json_text, size_t capacity, int
     return o;
 }
 
-const FormatApi& csv_api() { static FormatApi a{"csv", true, run, entry, push, encode, seeds, encode_to_sink}; return a; }
+const FormatApi& csv_api() { static FormatApi a{"csv", true, run, entry, push, encode, seeds, encode_to_sink, nullptr}; return a; }
 
 } // namespace iosim
